@@ -724,7 +724,8 @@ class CompoundInterval(Location):
 
     def gap_list(self) -> List[SingleInterval]:
         optimized = self.optimize_and_combine_blocks()
-        block_iter = optimized.scan_blocks()
+        # gaps do not depend on direction: an unstranded location is walked in coordinate order
+        block_iter = iter(optimized.blocks) if self.strand == Strand.UNSTRANDED else optimized.scan_blocks()
         gaps = []
         block1 = next(block_iter)
         for block2 in block_iter:
